@@ -947,14 +947,19 @@ func classify(rep Reply) Delivered {
 		d.Target = rep.Location
 	case rep.Code == http.StatusFound:
 		d.Kind = "redirect"
-		i := strings.Index(rep.Location, "?")
+		// RFC 3986: the fragment starts at the first '#', the query at the first '?' before it
+		loc, frag := rep.Location, ""
+		if j := strings.Index(loc, "#"); j >= 0 {
+			loc, frag = loc[:j], loc[j:]
+		}
+		i := strings.Index(loc, "?")
 		if i < 0 {
 			d.Target = rep.Location
 			d.Err = "redirect without query"
 			return d
 		}
-		d.Target = rep.Location[:i]
-		d.RawQuery = rep.Location[i+1:]
+		d.Target = loc[:i] + frag
+		d.RawQuery = loc[i+1:]
 		// independent query parsing: split on '&' and '=', percent-decode
 		vals := map[string]string{}
 		for _, kv := range strings.Split(d.RawQuery, "&") {
